@@ -15,7 +15,7 @@ CONSTANTS
   Buds = {0}
   NSAs = {FALSE}
   OptSets <- OptsPlain
-  Budgets = {3, 5, 7}
+  Budgets = {5}
 VIEW MCView
 INVARIANTS KeptWithinBudgetAnySizes
 CHECK_DEADLOCK FALSE
